@@ -29,8 +29,12 @@ type gzipResponseWriter struct {
 
 	buf            bytes.Buffer
 	bufferExceeded bool // Track if we exceeded max buffer size
+	headerSent     bool // Status line and headers have been passed on
 }
 
+// WriteHeader records the status. The header is sent only once it is known
+// whether the body will be compressed, because Content-Encoding and
+// Content-Length must be final before the header goes on the wire.
 func (g *gzipResponseWriter) WriteHeader(code int) {
 	if g.wroteHeader {
 		return
@@ -38,7 +42,18 @@ func (g *gzipResponseWriter) WriteHeader(code int) {
 
 	g.statusCode = code
 	g.wroteHeader = true
-	g.ResponseWriter.WriteHeader(code)
+}
+
+// sendHeader passes the recorded status (and the final headers) on
+func (g *gzipResponseWriter) sendHeader() {
+	if g.headerSent {
+		return
+	}
+	if !g.wroteHeader {
+		g.WriteHeader(http.StatusOK)
+	}
+	g.headerSent = true
+	g.ResponseWriter.WriteHeader(g.statusCode)
 }
 
 func (g *gzipResponseWriter) Write(b []byte) (int, error) {
@@ -47,6 +62,7 @@ func (g *gzipResponseWriter) Write(b []byte) (int, error) {
 		// Mark as exceeded and fall back to streaming uncompressed
 		if !g.bufferExceeded {
 			g.bufferExceeded = true
+			g.sendHeader()
 			// Flush existing buffer uncompressed
 			if g.buf.Len() > 0 {
 				_, _ = g.ResponseWriter.Write(g.buf.Bytes())
@@ -60,6 +76,10 @@ func (g *gzipResponseWriter) Write(b []byte) (int, error) {
 }
 
 func (g *gzipResponseWriter) Flush() {
+	// While the body is being buffered nothing can be flushed yet
+	if !g.bufferExceeded {
+		return
+	}
 	if f, ok := g.ResponseWriter.(http.Flusher); ok {
 		f.Flush()
 	}
@@ -84,25 +104,11 @@ func (g *gzipResponseWriter) Finish() error {
 
 	body := g.buf.Bytes()
 
-	clHeader := g.Header().Get("Content-Length")
-	if clHeader != "" {
-		cl, err := strconv.Atoi(clHeader)
-		// if Content-Length header found and is less than the minSize then return the body as is.
-		if err == nil && cl < g.minSize {
-			_, err := g.ResponseWriter.Write(body)
-			return err
+	if !g.shouldCompressBody(body) {
+		g.sendHeader()
+		if len(body) == 0 {
+			return nil
 		}
-	}
-
-	// acts as a fallback when Content-Length is not available.
-	if len(body) < g.minSize {
-		_, err := g.ResponseWriter.Write(body)
-		return err
-	}
-
-	// return body as is when Content-Type doesn't match specified in Config
-	ct := g.Header().Get("Content-Type")
-	if !matchesContentType(ct, g.contentTypes) {
 		_, err := g.ResponseWriter.Write(body)
 		return err
 	}
@@ -110,24 +116,44 @@ func (g *gzipResponseWriter) Finish() error {
 	g.Header().Set("Content-Encoding", "gzip")
 	// Remove Content-Length since compressed size differs from original
 	g.Header().Del("Content-Length")
+	g.sendHeader()
 
 	gz, err := gzip.NewWriterLevel(g.ResponseWriter, g.level)
 	if err != nil {
 		return err
 	}
-	defer func() {
-		if err := gz.Close(); err != nil {
-			// Log the error but don't fail the request
-			_ = err // Explicitly ignore
-		}
-	}()
 
-	_, err = gz.Write(body)
-	if err != nil {
+	if _, err = gz.Write(body); err != nil {
+		_ = gz.Close()
 		return err
 	}
 
 	return gz.Close()
+}
+
+// shouldCompressBody decides from the final headers and the buffered body
+func (g *gzipResponseWriter) shouldCompressBody(body []byte) bool {
+	// already encoded by the backend
+	if g.Header().Get("Content-Encoding") != "" {
+		return false
+	}
+
+	clHeader := g.Header().Get("Content-Length")
+	if clHeader != "" {
+		cl, err := strconv.Atoi(clHeader)
+		// if Content-Length header found and is less than the minSize then return the body as is.
+		if err == nil && cl < g.minSize {
+			return false
+		}
+	}
+
+	// acts as a fallback when Content-Length is not available.
+	if len(body) < g.minSize {
+		return false
+	}
+
+	// return body as is when Content-Type doesn't match specified in Config
+	return matchesContentType(g.Header().Get("Content-Type"), g.contentTypes)
 }
 
 // matchesContentType checks if content type matches any allowed prefix
